@@ -396,44 +396,39 @@ class _VersionIndependentUnmarshaller:
         # small tuple - since Python 3.4
         tuplesize = unpack("B", self.fp.read(1))[0]
         ret, i = self.r_ref_reserve(tuple(), save_ref)
-        while tuplesize > 0:
-            ret += (self.r_object(bytes_for_s=bytes_for_s),)
-            tuplesize -= 1
-            pass
-        return self.r_ref_insert(ret, i)
+        return self.r_ref_insert(tuple(self.r_items(tuplesize, bytes_for_s)), i)
+
+    def r_items(self, n, bytes_for_s):
+        """Read `n` objects. (Appending to a list keeps this linear in `n`.)"""
+        items = []
+        while n > 0:
+            items.append(self.r_object(bytes_for_s=bytes_for_s))
+            n -= 1
+        return items
 
     def t_tuple(self, save_ref, bytes_for_s=False):
         tuplesize = unpack("<i", self.fp.read(4))[0]
         ret, i = self.r_ref_reserve(tuple(), save_ref)
-        while tuplesize > 0:
-            ret += (self.r_object(bytes_for_s=bytes_for_s),)
-            tuplesize -= 1
-        return self.r_ref_insert(ret, i)
+        return self.r_ref_insert(tuple(self.r_items(tuplesize, bytes_for_s)), i)
 
     def t_list(self, save_ref, bytes_for_s=False):
         # FIXME: check me
         n = unpack("<i", self.fp.read(4))[0]
         ret = self.r_ref(list(), save_ref)
         while n > 0:
-            ret += (self.r_object(bytes_for_s=bytes_for_s),)
+            ret.append(self.r_object(bytes_for_s=bytes_for_s))
             n -= 1
         return ret
 
     def t_frozenset(self, save_ref, bytes_for_s=False):
         setsize = unpack("<i", self.fp.read(4))[0]
         ret, i = self.r_ref_reserve(tuple(), save_ref)
-        while setsize > 0:
-            ret += (self.r_object(bytes_for_s=bytes_for_s),)
-            setsize -= 1
-        return self.r_ref_insert(frozenset(ret), i)
+        return self.r_ref_insert(frozenset(self.r_items(setsize, bytes_for_s)), i)
 
     def t_set(self, save_ref, bytes_for_s=False):
         setsize = unpack("<i", self.fp.read(4))[0]
         ret, i = self.r_ref_reserve(tuple(), save_ref)
-        while setsize > 0:
-            ret += (self.r_object(bytes_for_s=bytes_for_s),)
-            setsize -= 1
-        return self.r_ref_insert(set(ret), i)
+        return self.r_ref_insert(set(self.r_items(setsize, bytes_for_s)), i)
 
     def t_dict(self, save_ref, bytes_for_s=False):
         ret = self.r_ref(dict(), save_ref)
